@@ -2,5 +2,9 @@
 
 package transformer
 
+import "github.com/antlr4-go/antlr/v4"
+
 // Verification hook (see /verif). With the build tag `verif` off it is a no-op.
 func verifTraceListener(*OpenFgaDslListener, string, ...string) {}
+
+func verifObserveTokens(*antlr.CommonTokenStream) {}
